@@ -1356,4 +1356,31 @@ theorem bossRun_append (t1 t2 : List BIn) (b : BossD) (acc : List BEff) :
   | nil => rfl
   | cons x xs ih => simp only [List.cons_append, bossRun]; exact ih _ _
 
+
+/-! ## closing delivers nothing -/
+
+/-- once the Boss is closing or closed, no input makes it hand anything to the application, and it
+    stays closing or closed -/
+theorem bossIn_closed_silent (b : BossD) (x : BIn) (h : bossLive b.st = false) :
+    wRecvs (bossIn b x).2.1 = [] ∧ sSends (bossIn b x).2.1 = [] ∧ bossLive (bossIn b x).1.st = false ∧
+      (bossIn b x).1.rx = b.rx := by
+  obtain ⟨st, ntx, rx, drx⟩ := b
+  cases x with
+  | gotMessage ph pt =>
+    simp only [bossIn, bossGotMessage]
+    cases classifyPhase ph <;> cases st <;> simp [bossLive] at h <;>
+      simp [bossStep, Boss.table, bossOuts, bossOut, bossLive, wRecvs_cons, sSends_cons]
+  | _ =>
+    cases st <;> simp [bossLive] at h <;>
+      simp [bossIn, bossStep, Boss.table, bossOuts, bossOut, bossLive, takeTxPhase, wRecvs_cons, sSends_cons]
+
+/-- a closing input (close, closed, error, scared, rx_error, rx_unwelcome), from ANY state, hands
+    nothing to the application and leaves the reorder buffer as it is -/
+theorem bossIn_closing_silent (b : BossD) (x : BIn) (hx : closingIn x = true) :
+    wRecvs (bossIn b x).2.1 = [] ∧ sSends (bossIn b x).2.1 = [] ∧ (bossIn b x).1.rx = b.rx ∧
+      (bossIn b x).1.nextTx = b.nextTx := by
+  obtain ⟨st, ntx, rx, drx⟩ := b
+  cases x <;> simp [closingIn] at hx <;> cases st <;>
+    simp [bossIn, bossStep, Boss.table, bossOuts, bossOut, wRecvs_cons, sSends_cons]
+
 end WV.Proofs.C03
